@@ -145,7 +145,9 @@ Record Inv (s : state) : Prop := {
             inflight gc = Some c -> inflight gc' = Some c -> g = g';
   i_wrh : writer s = true -> exists p pc, alookup p (plugs s) = Some pc /\ holder pc = true;
   i_pnodup : NoDup (map fst (plugs s));
-  i_zomb : forall z, In z (zombies s) -> exists ids, alookup z (plugs s) = Some (PClosed ids)
+  i_zomb : forall z, In z (zombies s) -> exists ids, alookup z (plugs s) = Some (PClosed ids);
+  i_stnodup : NoDup (store s);
+  i_snapnd : forall p pc, alookup p (plugs s) = Some pc -> NoDup (snap_of pc)
 }.
 
 Lemma inv_init : Inv init.
@@ -181,7 +183,7 @@ Qed.
 (* ---------------- plugin steps ---------------- *)
 Lemma step_inv_parrive s p s' : Inv s -> step s (APArrive p) = Some s' -> Inv s'.
 Proof.
-  intros I H. open_step H. destruct I as [Ireaders Ignodup Iwr Inowr Ionewr Imu1 Imu2 Isnapstore Iactive Ianodup Isnap Imiss Irecv Irnodup Iused Iing Ied Ist Iuniq Iwrh Ipnodup Izomb]. constructor; fields; try assumption.
+  intros I H. open_step H. destruct I as [Ireaders Ignodup Iwr Inowr Ionewr Imu1 Imu2 Isnapstore Iactive Ianodup Isnap Imiss Irecv Irnodup Iused Iing Ied Ist Iuniq Iwrh Ipnodup Izomb Istnd Isnapnd]. constructor; fields; try assumption.
   - intros W q qc Hq. apply alookup_aset_inv in Hq. destruct Hq as [[-> ->]|[Hne Hq]]; [reflexivity|eauto].
   - intros a b ac bc Ha Hb Hha Hhb. apply alookup_aset_inv in Ha. apply alookup_aset_inv in Hb.
     destruct Ha as [[-> ->]|[Hna Ha]]; [discriminate|]. destruct Hb as [[-> ->]|[Hnb Hb]]; [discriminate|]. eauto.
@@ -199,6 +201,7 @@ Proof.
   - rewrite aset_keys_absent by assumption. apply NoDup_snoc; [assumption|]. apply alookup_None_notin. assumption.
   - intros z Hz. destruct (Izomb z Hz) as [ids Hq]. exists ids.
     rewrite alookup_aset_other; [exact Hq|]. intros ->. congruence.
+  - intros q qc Hq. apply alookup_aset_inv in Hq. destruct Hq as [[-> ->]|[Hne Hq]]; [constructor|eauto].
 Qed.
 
 (* generic: a plugin changes its program counter, nothing else but the writer flag changes *)
@@ -217,9 +220,10 @@ Lemma plug_move s p old new w :
   (w = true -> holder new = true) ->
   ever_active new = ever_active old ->
   (forall ids, old <> PClosed ids) ->
+  (NoDup (snap_of old) -> NoDup (store s) -> NoDup (snap_of new)) ->
   Inv (set_writer (set_plug s p new) w).
 Proof.
-  intros I Hp Hact Hsnap1 Hsnap2 Hss Hw1 Hw2 Hw3 Hw4 Hw5 Hev Hncl.
+  intros I Hp Hact Hsnap1 Hsnap2 Hss Hw1 Hw2 Hw3 Hw4 Hw5 Hev Hncl Hnd.
   assert (Hold : forall q qc, alookup q (aset p new (plugs s)) = Some qc ->
                  (q = p /\ qc = new) \/ (q <> p /\ alookup q (plugs s) = Some qc)).
   { intros q qc. apply alookup_aset_inv. }
@@ -229,7 +233,7 @@ Proof.
     - destruct (holder qc) eqn:Hh; [|reflexivity]. exfalso. apply Hne.
       exact (i_onewr s I q p qc old Hq Hp Hh Ho).
     - exact (i_nowr s I W q qc Hq). }
-  destruct I as [Ireaders Ignodup Iwr Inowr Ionewr Imu1 Imu2 Isnapstore Iactive Ianodup Isnap Imiss Irecv Irnodup Iused Iing Ied Ist Iuniq Iwrh Ipnodup Izomb]. constructor; fields; try assumption.
+  destruct I as [Ireaders Ignodup Iwr Inowr Ionewr Imu1 Imu2 Isnapstore Iactive Ianodup Isnap Imiss Irecv Irnodup Iused Iing Ied Ist Iuniq Iwrh Ipnodup Izomb Istnd Isnapnd]. constructor; fields; try assumption.
   - intros W q qc Hq. destruct (Hold q qc Hq) as [[-> ->]|[Hne Hq']]; [apply Hw3; exact W|].
     apply (Hnohold (proj2 (Hw3 W)) q qc Hne Hq').
   - intros a b ac bc Ha Hb Hha Hhb.
@@ -261,6 +265,7 @@ Proof.
   - rewrite aset_keys_present by congruence. assumption.
   - intros z Hz. destruct (Izomb z Hz) as [ids Hq]. exists ids.
     rewrite alookup_aset_other; [exact Hq|]. intros ->. rewrite Hp in Hq. inversion Hq. eapply Hncl; eauto.
+  - intros q qc Hq. destruct (Hold q qc Hq) as [[-> ->]|[Hne Hq']]; [apply Hnd; eauto|eauto].
 Qed.
 
 Lemma writer_of_holder s p pc : Inv s -> alookup p (plugs s) = Some pc -> holder pc = true -> writer s = true.
@@ -294,7 +299,7 @@ Qed.
 Lemma step_inv_pfail s p s' : Inv s -> step s (APFail p) = Some s' -> Inv s'.
 Proof.
   intros I H. open_step H; (eapply plug_move; eauto; cbn; try tauto; try (intros; discriminate);
-    try (intros ids' [H|H]; discriminate)).
+    try (intros ids' [H|H]; discriminate); try (intros _ _; constructor)).
 Qed.
 
 Lemma step_inv_prelease s p s' : Inv s -> step s (APRelease p) = Some s' -> Inv s'.
@@ -337,7 +342,7 @@ Proof.
   assert (Hold : forall q qc, alookup q (aset p (PActivated ids) (plugs s)) = Some qc ->
                  (q = p /\ qc = PActivated ids) \/ (q <> p /\ alookup q (plugs s) = Some qc)).
   { intros q qc. apply alookup_aset_inv. }
-  destruct I as [Ireaders Ignodup Iwr Inowr Ionewr Imu1 Imu2 Isnapstore Iactive Ianodup Isnap Imiss Irecv Irnodup Iused Iing Ied Ist Iuniq Iwrh Ipnodup Izomb]. constructor; fields; try assumption.
+  destruct I as [Ireaders Ignodup Iwr Inowr Ionewr Imu1 Imu2 Isnapstore Iactive Ianodup Isnap Imiss Irecv Irnodup Iused Iing Ied Ist Iuniq Iwrh Ipnodup Izomb Istnd Isnapnd]. constructor; fields; try assumption.
   - intros W'. congruence.
   - intros a b ac bc Ha Hb Hha Hhb.
     destruct (Hold a ac Ha) as [[-> ->]|[Hna Ha']]; destruct (Hold b bc Hb) as [[-> ->]|[Hnb Hb']]; try reflexivity.
@@ -372,6 +377,7 @@ Proof.
   - intros _. exists p, (PActivated ids). rewrite alookup_aset_same. auto.
   - rewrite aset_keys_present by congruence. assumption.
   - intros z [].
+  - intros q qc Hq. destruct (Hold q qc Hq) as [[-> ->]|[Hne Hq']]; [exact (Isnapnd p _ Hp)|eauto].
 Qed.
 
 (* ---------------- goroutine steps ---------------- *)
@@ -382,7 +388,7 @@ Proof.
   match goal with E : writer s = false |- _ => rename E into W end.
   assert (Hold : forall k v, alookup k ((g, GHoldR) :: gors s) = Some v -> (k = g /\ v = GHoldR) \/ (k <> g /\ alookup k (gors s) = Some v)).
   { intros k v. apply alookup_cons_inv. }
-  destruct I as [Ireaders Ignodup Iwr Inowr Ionewr Imu1 Imu2 Isnapstore Iactive Ianodup Isnap Imiss Irecv Irnodup Iused Iing Ied Ist Iuniq Iwrh Ipnodup Izomb]. constructor; fields; try assumption.
+  destruct I as [Ireaders Ignodup Iwr Inowr Ionewr Imu1 Imu2 Isnapstore Iactive Ianodup Isnap Imiss Irecv Irnodup Iused Iing Ied Ist Iuniq Iwrh Ipnodup Izomb Istnd Isnapnd]. constructor; fields; try assumption.
   - cbn [length]. congruence.
   - cbn [map fst]. constructor; [|assumption]. apply alookup_None_notin. exact Hg.
   - intros W'. congruence.
@@ -423,7 +429,7 @@ Proof.
   assert (Hold : forall k v, alookup k (aset g (GDispatching c (active s) (active s)) (gors s)) = Some v ->
                  (k = g /\ v = GDispatching c (active s) (active s)) \/ (k <> g /\ alookup k (gors s) = Some v)).
   { intros k v. apply alookup_aset_inv. }
-  destruct I as [Ireaders Ignodup Iwr Inowr Ionewr Imu1 Imu2 Isnapstore Iactive Ianodup Isnap Imiss Irecv Irnodup Iused Iing Ied Ist Iuniq Iwrh Ipnodup Izomb]. constructor; fields; try assumption.
+  destruct I as [Ireaders Ignodup Iwr Inowr Ionewr Imu1 Imu2 Isnapstore Iactive Ianodup Isnap Imiss Irecv Irnodup Iused Iing Ied Ist Iuniq Iwrh Ipnodup Izomb Istnd Isnapnd]. constructor; fields; try assumption.
   - rewrite L. exact Ireaders.
   - rewrite K. assumption.
   - intros W'. congruence.
@@ -449,7 +455,7 @@ Proof.
     + eauto.
 Qed.
 
-Ltac dI I := destruct I as [Ireaders Ignodup Iwr Inowr Ionewr Imu1 Imu2 Isnapstore Iactive Ianodup Isnap Imiss Irecv Irnodup Iused Iing Ied Ist Iuniq Iwrh Ipnodup Izomb].
+Ltac dI I := destruct I as [Ireaders Ignodup Iwr Inowr Ionewr Imu1 Imu2 Isnapstore Iactive Ianodup Isnap Imiss Irecv Irnodup Iused Iing Ied Ist Iuniq Iwrh Ipnodup Izomb Istnd Isnapnd].
 
 Lemma step_inv_gdeliver s g p s' : Inv s -> step s (AGDeliver g p) = Some s' -> Inv s'.
 Proof.
@@ -558,6 +564,7 @@ Proof.
   - intros g1 g2 gc1 gc2 c0 H1 H2 F1 F2.
     destruct (Hold _ _ H1) as [[-> ->]|[Hn1 H1']]; [discriminate|].
     destruct (Hold _ _ H2) as [[-> ->]|[Hn2 H2']]; [discriminate|]. eauto.
+  - constructor; assumption.
 Qed.
 
 Lemma step_inv_grelease s g s' : Inv s -> step s (AGRelease g) = Some s' -> Inv s'.
@@ -620,6 +627,7 @@ Proof.
   - rewrite aset_keys_present by congruence. assumption.
   - intros z [->|Hz]; [exists ids; apply alookup_aset_same|].
     destruct (Izomb z Hz) as [ids' Hq]. exists ids'. rewrite alookup_aset_other; [exact Hq|]. intros ->. congruence.
+  - intros q qc Hq. destruct (Hold q qc Hq) as [[-> ->]|[Hne Hq']]; [exact (Isnapnd p _ Hp)|eauto].
 Qed.
 
 (* a repeated Unblock of a released block changes nothing *)
@@ -759,7 +767,7 @@ Proof.
   unfold plugin_exactly_once. cbn [po_registered po_snapshot po_creates fst snd].
   destruct (smem p (active s)) eqn:Hact; [|reflexivity]. cbn [negb orb]. apply smem_In in Hact.
   pose proof (alookup_of_In p pc (plugs s) (i_pnodup s I) Hin) as Hpc.
-  apply andb_true_intro. split.
+  apply andb_true_intro. split; [apply andb_true_intro; split|apply nodup_b_true; exact (i_snapnd s I p pc Hpc)].
   - apply forallb_forall. intros c Hc. destruct (exactly_once s p c R Hact Hc) as [Hx _].
     unfold snapshot_of in Hx. rewrite Hpc in Hx.
     destruct (smem c (snap_of pc)) eqn:S1; destruct (smem c (rev (creates_of p (recv s)))) eqn:S2; try reflexivity; exfalso.
@@ -1140,4 +1148,57 @@ Theorem pending_registration_ageless s l s' p : reachable s -> alookup p (plugs 
 Proof.
   intros R Hp H Hn. pose proof (steps_keep_waiting l s s' p H Hn Hp) as Hp'. split; [exact Hp'|].
   intros Hr W. apply registration_completes; try assumption. eapply reachable_steps; eauto.
+Qed.
+
+(* ---------------- each registration delivers at most one snapshot ---------------- *)
+Definition past_snapshot (pc : ppc) : bool := match pc with PWaitW | PHoldW => false | _ => true end.
+Definition sent_snapshot (s : state) (p : pid) : Prop :=
+  exists pc, alookup p (plugs s) = Some pc /\ past_snapshot pc = true.
+
+Definition action_eq_dec : forall a b : action, {a = b} + {a <> b}.
+Proof. decide equality; apply string_dec. Defined.
+
+Lemma snapshot_step_marks s p s' : step s (APSnapshot p) = Some s' -> ~ sent_snapshot s p /\ sent_snapshot s' p.
+Proof.
+  intros H. unfold step in H. destruct (alookup p (plugs s)) as [pc|] eqn:Hp; [|discriminate].
+  destruct pc; try discriminate. inversion H; subst. split.
+  - intros (pc & Hp' & Hs). rewrite Hp in Hp'. inversion Hp'; subst. discriminate.
+  - eexists. fields. rewrite alookup_aset_same. split; reflexivity.
+Qed.
+
+Lemma sent_snapshot_stable s a s' p : step s a = Some s' -> sent_snapshot s p -> sent_snapshot s' p.
+Proof.
+  intros H (pc & Hp & Hs).
+  destruct a as [q|q|q|q|q|q|q|g|g c|g q|g|g|g|g];
+    try (destruct (String.eqb_spec q p) as [->|Hne];
+         [ unfold step in H; rewrite Hp in H; destruct pc; try discriminate;
+           repeat match type of H with context [match ?x with _ => _ end] => destruct x; try discriminate end;
+           inversion H; subst; eexists; fields; rewrite ?alookup_aset_same; split; reflexivity
+         | open_step H; unfold sent_snapshot; fields; exists pc; rewrite ?alookup_aset_other by congruence; auto ]);
+    try (open_step H; unfold sent_snapshot; fields; exists pc; auto).
+Qed.
+
+Lemma one_snapshot_from l : forall s s' p, steps s l = Some s' ->
+  (sent_snapshot s p -> count_occ action_eq_dec l (APSnapshot p) = 0) /\
+  count_occ action_eq_dec l (APSnapshot p) <= 1.
+Proof.
+  induction l as [|a r IH]; cbn [steps]; intros s s' p H; [cbn; split; auto|].
+  destruct (step s a) as [s1|] eqn:E; [|discriminate]. destruct (IH s1 s' p H) as [IH1 IH2].
+  cbn [count_occ]. destruct (action_eq_dec a (APSnapshot p)) as [->|Hne].
+  - destruct (snapshot_step_marks s p s1 E) as [Hn Hs]. split; [intros Hc; contradiction|].
+    rewrite (IH1 Hs). lia.
+  - split; [|exact IH2]. intros Hs. apply IH1. eapply sent_snapshot_stable; eauto.
+Qed.
+
+(* in every run of the LTS the snapshot step of a plugin instance occurs at most once: a registration whose
+   synchronisation failed is not synchronised again, a registered one neither *)
+Theorem one_snapshot_per_registration l s p : steps init l = Some s ->
+  count_occ action_eq_dec l (APSnapshot p) <= 1.
+Proof. intros H. apply (one_snapshot_from l init s p H). Qed.
+
+(* ... and what it was sent has no duplicates *)
+Theorem snapshot_without_duplicates s p : reachable s -> NoDup (snapshot_of s p) /\ NoDup (store s).
+Proof.
+  intros R. pose proof (reachable_inv s R) as I. split; [|apply (i_stnodup s I)].
+  unfold snapshot_of. destruct (alookup p (plugs s)) as [pc|] eqn:Hp; [apply (i_snapnd s I p pc Hp)|constructor].
 Qed.
